@@ -112,8 +112,8 @@ PROPS["C01"] = {
 }
 PROPS["C07"] = {
     "level": "proof", "title": "Compaction and flushing are invisible to readers",
-    "lean_modules": ["Rain.Props.Lsm"], "components": ["lsm"], "sig_prefixes": ["c07:", "c10:", "c09:"],
-    "technique": "Lean 4 proof that rotation, flush (to any admissible level), table compaction (any admissible inputs, any cut of the output, drop rule with any smallest snapshot, tombstone dropping at the base level) and trivial move preserve every view at or above the smallest snapshot + validity predicates evaluated on every transition of the real worker + full dumps before/after every compaction",
+    "lean_modules": ["Rain.Props.Lsm", "Rain.Props.Pick"], "components": ["lsm", "pick"], "sig_prefixes": ["c07:", "c10:", "c09:"],
+    "technique": "Lean 4 proof that rotation, flush (to any admissible level), table compaction (any admissible inputs, any cut of the output, drop rule with any smallest snapshot, tombstone dropping at the base level) and trivial move preserve every view at or above the smallest snapshot + validity predicates evaluated on every transition of the real worker + full dumps before/after every compaction + input selection: Lean 4 model of finalize_compaction_inputs (SetupOtherInputs: boundary files, level-0 overlap closure with its restart loop, expansion under the 25 x max_file_size limit) and proof that for every state satisfying the invariant and every seed the real callers can pass, the selected files satisfy the input clauses of validCompaction (C07_selected_inputs_are_valid); the real selection is run against the model on synthetic versions and on the database's own versions",
     "level_text": "Machine-checked proof (rearrange_view, C07_invisible) over the LSM model for every state satisfying the invariant and every valid transition. " + LSM_TIE + "; full contents (scan + gets at the latest state and at every live snapshot) are dumped before and after every compact_range and after background quiescence.",
     "design_ref": "5 (C07)", "trusted_base": LSM_TB,
     "assumptions": ["a transition outside the validity predicates is reported as a violation even if no wrong read was observed (the proof no longer covers it)"],
